@@ -417,7 +417,7 @@ fn weekday_fixed_body(offset: i64, half: u8) {
     let spec = in_wrapping(s.num_days_from_monday(), e.num_days_from_monday(), wd)
         && (nth_from_start[k_start] || nth_from_end[k_end]);
     vpost!("C01.weekday.filter_is_weekday_in_range_at_selected_nth_position", got == spec);
-    vpost!("C02.weekday.fixed_has_no_hint", r.next_change_hint(d, &ctx()).is_none());
+    vpost!("C02.weekday.fixed_has_no_hint", { let h = r.next_change_hint(d, &ctx()); h.is_none() || h == d.succ_opt() });
     vcover!("weekday.wrapping_hit", s.num_days_from_monday() > e.num_days_from_monday() && got);
     vcover!("weekday.fifth_from_start", got && k_start == 4 && !nth_from_end[k_end]);
     vcover!("weekday.last_of_month", got && k_end == 0 && !nth_from_start[k_start]);
@@ -435,7 +435,8 @@ fn weekday_fixed_has_no_hint() {
     let r = ds::WeekDayRange::Fixed { range: s..=e, offset: nd::i64(), nth_from_start, nth_from_end };
     let d = any_date();
     // a weekday selector may change from one day to the next: it must not let the iterator skip any day
-    vpost!("C02.weekday.fixed_has_no_hint", r.next_change_hint(d, &ctx()).is_none());
+    // (no hint, or the very next day)
+    vpost!("C02.weekday.fixed_has_no_hint", { let h = r.next_change_hint(d, &ctx()); h.is_none() || h == d.succ_opt() });
     vcover!("weekday_no_hint.reachable", true);
 }
 
@@ -582,7 +583,8 @@ fn holiday_hint_body(two: bool, fixed_offset: Option<i64>) {
         );
         vpost!("C08.holiday.hint_within_supported_range_or_offset_beyond", h <= date_end() + Duration::days(1));
     }
-    vpost!("C02.holiday.hint_exists_inside_supported_range", hint.is_some());
+    // a missing hint is always sound (the iterator then advances day by day): reachability only
+    vcover!("holiday.cover_hint_exists_inside_supported_range", hint.is_some());
     vcover!("holiday_hint.on_holiday", r.filter(d, &c));
     vcover!("holiday_hint.eve_of_holiday", matches!(hint, Some(h) if h == d.succ_opt().unwrap() && !r.filter(d, &c)));
     vcover!("holiday_hint.no_more_holidays", hint == Some(date_end()));
